@@ -12,6 +12,11 @@ EXTENDS UnfoldOps, OpGraphOps, Json, IOUtils
 
 Data == JsonDeserialize(IOEnv.TRACE_FILE)
 Tr == Data.traces
+(* Two levels (harness/parallel.py): that the graph of a tree list is simplified, that the layers of an unrolled automaton are    *)
+(* exactly its live states, that no node dangles and no operator id repeats on an edge, and that a program outside the model's     *)
+(* guard is refused, describes the code (Unfold.tla); C17 asks for a consistent graph of the requested length with the right      *)
+(* meaning.  Strict-only diagnostics start with "spec: ".                                                                       *)
+Strict == IF "strict" \in DOMAIN Data THEN Data.strict ELSE TRUE
 
 VARIABLES tid, l, pc, L, target, guard, widths, G
 tvars == <<tid, l, pc, L, target, guard, widths, G>>
@@ -61,15 +66,15 @@ TAutop == /\ HasRec /\ Rec.ev = "autop" /\ pc = "none"
           /\ pc' = "autop" /\ G' = G /\ Advance
 
 TGraph == /\ HasRec /\ Rec.ev = "graph" /\ pc \in {"trees", "autop"}
-          /\ guard
+          /\ Strict => guard
           /\ JsonIdsUnique(Rec.g)
           /\ LET g == GraphOfJson(Rec.g)
-             IN /\ JsonListsOK(Rec.g) /\ ConsistentG(g) /\ Rec.cons /\ UniqueOids(g)
+             IN /\ JsonListsOK(Rec.g) /\ ConsistentG(g) /\ Rec.cons /\ (Strict => UniqueOids(g))
                 /\ GraphLength(g) = L /\ Rec.length = L
                 /\ Den(g) = target /\ DenBackward(g) = target
-                /\ AllConnected(g)
-                /\ pc = "trees" => Simplified(g)
-                /\ pc = "autop" => \A i \in 0..L : Width(g, i) = widths[i]
+                /\ Strict => AllConnected(g)
+                /\ (Strict /\ pc = "trees") => Simplified(g)
+                /\ (Strict /\ pc = "autop") => \A i \in 0..L : Width(g, i) = widths[i]
                 /\ G' = g
           /\ pc' = "graph" /\ UNCHANGED <<L, target, guard, widths>> /\ Advance
 
@@ -101,14 +106,15 @@ TNextTrace == /\ tid <= Len(Tr) /\ l > Len(Tr[tid]) /\ pc = "graph"
 Diagnose ==
     IF Rec.ev = "raise" THEN "exception although the input program is in the documented domain: " \o Rec.exc
     ELSE IF Rec.ev = "graph" THEN
-        (IF ~guard THEN "a graph was returned although the model's guard fails"
+        (IF ~guard THEN "spec: a graph was returned although the model's guard fails"
          ELSE IF ~JsonIdsUnique(Rec.g) THEN "duplicate ids"
          ELSE IF ~(JsonListsOK(Rec.g) /\ ConsistentG(GraphOfJson(Rec.g))) THEN "graph inconsistent"
          ELSE IF GraphLength(GraphOfJson(Rec.g)) # L \/ Rec.length # L THEN "wrong length"
          ELSE IF Den(GraphOfJson(Rec.g)) # target THEN "graph does not denote the meaning of the input program"
-         ELSE IF pc = "autop" /\ ~(\A i \in 0..L : Width(GraphOfJson(Rec.g), i) = widths[i]) THEN "layer widths differ from the live automaton states (dead states / missing states)"
-         ELSE IF pc = "trees" /\ ~Simplified(GraphOfJson(Rec.g)) THEN "graph from trees is not simplified"
-         ELSE "is_consistent() disagrees / dangling nodes / duplicate operator ids")
+         ELSE IF pc = "autop" /\ ~(\A i \in 0..L : Width(GraphOfJson(Rec.g), i) = widths[i]) THEN "spec: layer widths differ from the live automaton states (dead states / missing states)"
+         ELSE IF pc = "trees" /\ ~Simplified(GraphOfJson(Rec.g)) THEN "spec: graph from trees is not simplified"
+         ELSE IF ~Rec.cons THEN "is_consistent() false on a consistent graph"
+         ELSE "spec: dangling nodes / duplicate operator ids on an edge")
     ELSE IF Rec.ev = "dense" THEN "as_matrix() differs from the matrix of the symbolic meaning"
     ELSE IF Rec.ev \in {"trees", "autop"} THEN "the specified construction itself does not denote the meaning (spec problem)"
     ELSE "unexpected event"
